@@ -18,8 +18,9 @@ result is representable the C++ computes exactly the model's values:
         for every prefix ending in a processed cell |area_cpp - area_model| <= h_i.  This prefix criterion
         is the tolerance (it implies |delta| <= 1 per cell on single-height circuits); the observed maximum
         per-cell |delta| is reported in the evidence.
-      - expandCellsByFactor: an error bound is propagated through the float32 accumulation and the width
-        products; a truncation whose exact argument is farther from an integer than the bound must agree
+      - expandCellsByFactor: an error bound is propagated through the accumulation and the width
+        products AS IF they were still evaluated in binary32 (oracle_ef was written before the F18 repair, after which
+        the C++ uses double; the bound is therefore looser than necessary and more cases end up `loose`); a truncation whose exact argument is farther from an integer than the bound must agree
         exactly, the others may differ by 1 (|delta| <= 1).  If a truncation inside the accumulation of
         expandedArea or a branch comparison is itself within the bound the case is `loose`: only the
         statement is re-checked on the C++ output (with slack 2 per movable cell).
@@ -31,7 +32,7 @@ every case, independently of the Coq model: available area recomputed here from 
 and the margin; `within one cell height` is read inclusively with the tallest processed cell (the theorem gives
 the sharper strict bound with the last processed cell); by-factor bound = maxDensity*available + one unit per
 movable cell (theorem c18_factor_area_bound).
-Finding F18 (fixed by dfb6548 on agent/C18): before the fix expandCellsByFactor narrows movable cells wider than
+Finding F18 (fixed by bc9a2de on /repo main; developed as dfb6548 on agent/C18): before the fix expandCellsByFactor narrows movable cells wider than
 2^24 (binary32 product); the generator contains such cells (3% of the EF cases) and the corpus its witness.
 
 Floating point (theorems c18f_* of Properties_C18.v over the Flocq binary64/binary32 model coq/ExpandFloat.v): the
@@ -1319,8 +1320,10 @@ def run(ctx):
         "penalties <= 2^40; they use the axioms of Coq's classical real numbers (sig_forall_dec, sig_not_dec, functional_extensionality_dep, classic); "
         "it is tied to the compiled code integer for integer / bit for bit on <= 100 non-dyadic cases per run (floating_point_tie)",
         "expandCellsByFactor takes float factors: outside the exact class its area bound is re-checked with the slack 2 per movable cell + "
-        "2^-22 relative (factor rounding); F18 (binary32 area accumulation / width products, fixed by dfb6548) is what the cases with "
-        "a movable cell wider than 2^24 and corpus lines 11-12 look for"])
+        "2^-22 relative (factor rounding); F18 (binary32 area accumulation / width products, fixed by bc9a2de on /repo main) is what the cases with "
+        "a movable cell wider than 2^24 and corpus lines 11-12 look for",
+        "int / long long are unbounded integers in both models: 'never narrower' is claimed only for results below 2^31 (a width of 2^30 with cap 2 becomes -2147483648 in the C++, +2^31 in the model); "
+        "the lower area bound is judged only on branch-stable cases without a binding cap, the C++'s own rowArea is used on branch-unstable cases; generated circuits have no nets (pins, weights, polarity, update flags not compared); rows are non-reversed"])
 
 
 def replay(ctx, path):
